@@ -405,6 +405,12 @@ def unesc(s):
 
 # ------------------------------------------------------------------ -> Coq (Verif.C06.Model)
 
+def clist(xs):
+    """a Coq list without the [ ; ] notation (nested list notations elaborate exponentially slowly)"""
+    xs = list(xs)
+    return "(" + "".join("cons %s (" % x for x in xs) + "nil" + ")" * len(xs) + ")"
+
+
 def fields_coq(fs):
     def attr(f, counter):
         a = f["attr"]
@@ -418,8 +424,8 @@ def fields_coq(fs):
     if fs["kind"] == "unit":
         return "FUnit"
     if fs["kind"] == "tuple":
-        return "(FUnnamed [%s])" % "; ".join(attr(f, c) for f in fs["list"])
-    return "(FNamed [%s])" % "; ".join("(%s, %s)" % (id_coq(f["name"]), attr(f, c)) for f in fs["list"])
+        return "(FUnnamed %s)" % clist(attr(f, c) for f in fs["list"])
+    return "(FNamed %s)" % clist("(%s, %s)" % (id_coq(f["name"]), attr(f, c)) for f in fs["list"])
 
 
 def expansion_coq(name, fs):
@@ -428,7 +434,7 @@ def expansion_coq(name, fs):
 
 def leaf_coq(leaves, lid, trait):
     key = leaves.items[lid][0]
-    return "(VLeaf (%s LT%d_%s []))" % ("leaf_table_err" if key == "Fail" else "leaf_table", lid, trait)
+    return "(VLeaf (%s LT%d_%s nil))" % ("leaf_table_err" if key == "Fail" else "leaf_table", lid, trait)
 
 
 def val_coq(case, leaves, v, fl, sites):
@@ -438,15 +444,15 @@ def val_coq(case, leaves, v, fl, sites):
     if k == "leaf":
         return leaf_coq(leaves, v[1], "Debug")
     if k == "some":
-        return "(VTuple Std %s [%s] true)" % (coq_str("Some"), rec(v[1]))
+        return "(VTuple Std %s %s true)" % (coq_str("Some"), clist([rec(v[1])]))
     if k == "none":
         return "(VUnit %s)" % coq_str("None")
     if k in ("vec", "arr"):
-        return "(VList [%s])" % "; ".join(rec(x) for x in v[1])
+        return "(VList %s)" % clist(rec(x) for x in v[1])
     if k in ("box", "ref"):
         return rec(v[1])
     if k == "tup":
-        return "(VTuple Std [] [%s] true)" % "; ".join(rec(x) for x in v[1])
+        return "(VTuple Std nil %s true)" % clist(rec(x) for x in v[1])
     assert k == "adt"
     it = case["items"][v[1]]
     if it["kind"] == "struct":
@@ -458,7 +464,7 @@ def val_coq(case, leaves, v, fl, sites):
     def args_val(i):
         a = fs["list"][i]["attr"]
         if a is None or a[0] != "fmt":
-            return "(VUnit [])"
+            return "(VUnit nil)"
         parts = []
         for (l, kk, ref) in a[1]["parts"]:
             sp, tr = ARGSPECS[kk]
@@ -469,13 +475,13 @@ def val_coq(case, leaves, v, fl, sites):
                 assert fv[0] == "leaf"
                 x = leaf_coq(leaves, fv[1], tr)
             parts.append("(%s, %s, %s)" % (coq_str(l), spec_coq(sp), x))
-        return "(VArgs [%s] %s)" % ("; ".join(parts), coq_str(a[1]["tail"]))
+        return "(VArgs %s %s)" % (clist(parts), coq_str(a[1]["tail"]))
 
     if fl == "dm" or not has_attrs(fs):
         body = ("(generate_body %s %s)" % (sites, expansion_coq(name, fs)) if fl == "dm"
                 else "(std_derive_body %s)" % expansion_coq(name, fs))
-        return "(body_val (nth_val [%s]) (fun i _ => nth_val [%s] i) %s)" % (
-            "; ".join(kids), "; ".join(args_val(i) for i in range(len(kids))), body)
+        return "(body_val (nth_val %s) (fun i _ => nth_val %s i) %s)" % (
+            clist(kids), clist(args_val(i) for i in range(len(kids))), body)
     # the hand-written std impl (python's own reading of the attributes: the oracle side)
     printed = []
     skipped = False
@@ -487,8 +493,8 @@ def val_coq(case, leaves, v, fl, sites):
         x = kids[i] if a is None else args_val(i)
         printed.append(x if fs["kind"] == "tuple" else "(%s, %s)" % (coq_str(f["name"]["n"]), x))
     if fs["kind"] == "tuple":
-        return "(VTuple Std %s [%s] %s)" % (coq_str(name["n"]), "; ".join(printed), "false" if skipped else "true")
-    return "(VNamed %s [%s] %s)" % (coq_str(name["n"]), "; ".join(printed), "false" if skipped else "true")
+        return "(VTuple Std %s %s %s)" % (coq_str(name["n"]), clist(printed), "false" if skipped else "true")
+    return "(VNamed %s %s %s)" % (coq_str(name["n"]), clist(printed), "false" if skipped else "true")
 
 
 def value_has_raw(case, v):
@@ -560,6 +566,8 @@ class Gen:
             return ["adt", i, [self.ty(case, 0, [j for j in adts if j < i], (), 0.3) for _ in it["params"]]]
         if depth > 0 and x < 0.8:
             k = r.choice(["opt", "vec", "tup", "arr", "box", "ref", "vec", "opt", "tup"])
+            if k == "ref" and params:
+                k = "box"       # `&'static T` would need `T: 'static` on the item
             if k == "tup":
                 return ["tup", [self.ty(case, depth - 1, adts, params, p_adt) for _ in range(r.randrange(1, 4))]]
             if k == "arr":
